@@ -798,7 +798,16 @@ def unroll_constant_loops(chunk, pinned_locals: set) -> int:
             t = st.exprs[0]
             if t.fields and all(k is not None and k.kind == "number" for k, v in t.fields) and all(v.kind in ("string", "number") for k, v in t.fields):
                 tables[st.names[0]] = [v for k, v in t.fields]
-    if not tables:
+    def const_list(t):
+        if t.kind == "table" and t.fields and all((k is None or k.kind == "number") for k, v in t.fields) \
+                and all(v.kind in ("string", "number") for k, v in t.fields):
+            return [v for k, v in t.fields]
+        return None
+
+    # `for _, v in ipairs({c1, c2, ...})` with the list written in place
+    inline_lists = any(st.kind == "forin" and len(st.exprs) == 1 and st.exprs[0].kind == "call" and len(st.exprs[0].args) == 1
+                       and const_list(st.exprs[0].args[0]) is not None for st in chunk.body)
+    if not tables and not inline_lists:
         return 0
     # a table that is read or written anywhere except by such loops is left alone
     count = 0
@@ -874,6 +883,18 @@ def unroll_constant_loops(chunk, pinned_locals: set) -> int:
             T, iv, v = st.exprs[0].args[0].id, st.names[0], st.names[1]
             if not uses_var(st.body, iv, lambda x: False):
                 for el in tables[T]:
+                    for b in st.body:
+                        c = subst(_deepcopy(b), lambda x: x.kind == "name" and x.id == v, el)
+                        new_body.append(fold(c))
+                count += 1
+                done = True
+        elif st.kind == "forin" and len(st.exprs) == 1 and st.exprs[0].kind == "call" and text(st.exprs[0].func) in ("ipairs", "_orig_ipairs") \
+                and len(st.exprs[0].args) == 1 and const_list(st.exprs[0].args[0]) is not None and len(st.names) == 2:
+            iv, v = st.names
+            assigned = any(x.kind in ("assign", "local") and any(getattr(t, "kind", None) == "name" and t.id == v for t in getattr(x, "targets", []))
+                           for b in st.body for x in walk(b))
+            if not uses_var(st.body, iv, lambda x: False) and not assigned:
+                for el in const_list(st.exprs[0].args[0]):
                     for b in st.body:
                         c = subst(_deepcopy(b), lambda x: x.kind == "name" and x.id == v, el)
                         new_body.append(fold(c))
